@@ -948,6 +948,8 @@ def c18(ctx, tr):
     n_solves = sum(1 for c in tr.calls if c['op'] == 'solve')
     res['probes']['solves:%d' % min(n_solves, 4)] = 1
     res['probes']['bf' if bf else 'lp'] = 1
+    if tr.intruders:
+        res['probes']['second-solver-object-in-between'] = 1
     if exc is not None:
         e = exc['exc']
         if e['type'] == 'RunTimeout':
